@@ -21,9 +21,6 @@ Proof. unfold combine_domains. now rewrite (fold_proj merge_domain d_funcs d_fun
 Lemma cd_acts defaults files :
   d_acts (combine_domains defaults files) = fold_left update (map d_acts files) [].
 Proof. unfold combine_domains. now rewrite (fold_proj merge_domain d_acts d_acts update). Qed.
-Lemma cd_reqs defaults files :
-  d_reqs (combine_domains defaults files) = fold_left add_new (map d_reqs files) [].
-Proof. unfold combine_domains. now rewrite (fold_proj merge_domain d_reqs d_reqs add_new). Qed.
 
 Lemma last_default_irrelevant {A} (l : list A) (d d' : A) : l <> [] -> last l d = last l d'.
 Proof.
@@ -43,6 +40,18 @@ Lemma cd_name defaults files :
   d_name (combine_domains defaults files) = last (map d_name files) None.
 Proof. unfold combine_domains. now rewrite fold_merge_name. Qed.
 
+Lemma fold_merge_reqs files : forall c,
+  d_reqs (fold_left merge_domain files c) = last (map d_reqs files) (d_reqs c).
+Proof.
+  induction files as [|f files IH]; simpl; intros c; [reflexivity|].
+  rewrite IH. simpl. destruct (map d_reqs files) as [|o l]; [reflexivity|].
+  apply last_default_irrelevant. discriminate.
+Qed.
+
+Lemma cd_reqs defaults files :
+  d_reqs (combine_domains defaults files) = last (map d_reqs files) [].
+Proof. unfold combine_domains. now rewrite fold_merge_reqs. Qed.
+
 (* ---------------------------------------------------------------- the statements *)
 Definition sections_agree (defaults : alist) (files : list domainv) : Prop :=
   agree (defaults :: map d_types files) /\ agree (map d_consts files) /\ agree (map d_preds files) /\
@@ -53,24 +62,14 @@ Definition domain_is_union (defaults : alist) (files : list domainv) (c : domain
   union_of (map d_consts files) (d_consts c) /\
   union_of (map d_preds files) (d_preds c) /\
   union_of (map d_funcs files) (d_funcs c) /\
-  union_of (map d_acts files) (d_acts c) /\
-  set_union_of (map d_reqs files) (d_reqs c).
+  union_of (map d_acts files) (d_acts c).
 
 Definition domain_is_weak_union (defaults : alist) (files : list domainv) (c : domainv) : Prop :=
   weak_union_of (defaults :: map d_types files) (d_types c) /\
   weak_union_of ([] :: map d_consts files) (d_consts c) /\
   weak_union_of ([] :: map d_preds files) (d_preds c) /\
   weak_union_of ([] :: map d_funcs files) (d_funcs c) /\
-  weak_union_of ([] :: map d_acts files) (d_acts c) /\
-  set_union_of (map d_reqs files) (d_reqs c).
-
-Lemma reqs_union defaults files :
-  set_union_of (map d_reqs files) (d_reqs (combine_domains defaults files)).
-Proof.
-  rewrite cd_reqs. split.
-  - apply NoDup_fold_add_new. constructor.
-  - intros x. rewrite In_fold_add_new. split; [intros [[]|H]; exact H|intros H; now right].
-Qed.
+  weak_union_of ([] :: map d_acts files) (d_acts c).
 
 Lemma C17_union_domains_lemma : forall defaults files,
   NoDup (keys defaults) -> sections_agree defaults files ->
@@ -80,8 +79,7 @@ Proof.
   rewrite cd_types, cd_consts, cd_preds, cd_funcs, cd_acts.
   split; [exact (union_of_intro defaults (map d_types files) Hnd At)|].
   split; [now apply union_of_intro_nil|]. split; [now apply union_of_intro_nil|].
-  split; [now apply union_of_intro_nil|]. split; [now apply union_of_intro_nil|].
-  apply reqs_union.
+  split; [now apply union_of_intro_nil|]. now apply union_of_intro_nil.
 Qed.
 
 Lemma C17_union_domains_weak_lemma : forall defaults files,
@@ -93,8 +91,7 @@ Proof.
   assert (H0 : NoDup (keys (@nil (string * string)))) by constructor.
   split; [exact (weak_union_of_intro defaults _ Hnd)|].
   split; [exact (weak_union_of_intro [] _ H0)|]. split; [exact (weak_union_of_intro [] _ H0)|].
-  split; [exact (weak_union_of_intro [] _ H0)|]. split; [exact (weak_union_of_intro [] _ H0)|].
-  apply reqs_union.
+  split; [exact (weak_union_of_intro [] _ H0)|]. exact (weak_union_of_intro [] _ H0).
 Qed.
 
 (* dummy actions: exactly three more entries, everything else as without them *)
@@ -145,11 +142,8 @@ Proof.
 Qed.
 
 (* ---------------------------------------------------------------- order independence *)
-Definition same_name (files : list domainv) : Prop :=
-  forall f g, In f files -> In g files -> d_name f = d_name g.
-
+(* equal in the sections the property speaks about, each as a map (the order of the entries is not part of it) *)
 Definition domain_equiv (a b : domainv) : Prop :=
-  d_name a = d_name b /\ set_equiv (d_reqs a) (d_reqs b) /\
   map_equiv (d_types a) (d_types b) /\ map_equiv (d_consts a) (d_consts b) /\
   map_equiv (d_preds a) (d_preds b) /\ map_equiv (d_funcs a) (d_funcs b) /\
   map_equiv (d_acts a) (d_acts b).
@@ -173,26 +167,15 @@ Proof.
 Qed.
 
 Lemma C17_order_domains_lemma : forall defaults files files',
-  NoDup (keys defaults) -> sections_agree defaults files -> same_name files ->
+  NoDup (keys defaults) -> sections_agree defaults files ->
   Permutation files files' ->
   domain_equiv (combine_domains defaults files) (combine_domains defaults files').
 Proof.
-  intros defaults files files' Hnd Hag Hname P.
-  pose proof (C17_union_domains_lemma defaults files Hnd Hag) as (Ut & Uc & Up & Uf & Ua & Ur).
+  intros defaults files files' Hnd Hag P.
+  pose proof (C17_union_domains_lemma defaults files Hnd Hag) as (Ut & Uc & Up & Uf & Ua).
   pose proof (C17_union_domains_lemma defaults files' Hnd (sections_agree_perm _ _ _ P Hag))
-    as (Ut' & Uc' & Up' & Uf' & Ua' & Ur').
-  unfold domain_equiv. split; [|split; [|split; [|split; [|split; [|split]]]]].
-  - rewrite !cd_name. destruct files as [|f files].
-    + apply Permutation_nil in P. now subst.
-    + destruct files' as [|f' files']; [apply Permutation_sym, Permutation_nil in P; discriminate|].
-      assert (H1 : In (last (map d_name (f :: files)) None) (map d_name (f :: files)))
-        by (apply last_In; discriminate).
-      assert (H2 : In (last (map d_name (f' :: files')) None) (map d_name (f' :: files')))
-        by (apply last_In; discriminate).
-      apply in_map_iff in H1, H2. destruct H1 as [g [E1 I1]], H2 as [g' [E2 I2]].
-      rewrite <- E1, <- E2. apply Hname; [assumption|].
-      apply (Permutation_in _ (Permutation_sym P)). assumption.
-  - apply (set_union_of_equiv _ _ _ _ (perm_map_In d_reqs _ _ P) Ur Ur').
+    as (Ut' & Uc' & Up' & Uf' & Ua').
+  unfold domain_equiv. split; [|split; [|split; [|split]]].
   - refine (union_of_equiv _ _ _ _ _ Ut Ut'). intros d. simpl.
     rewrite (perm_map_In d_types _ _ P d). tauto.
   - apply (union_of_equiv _ _ _ _ (perm_map_In d_consts _ _ P) Uc Uc').
@@ -204,7 +187,7 @@ Qed.
 (* without agreement the order matters: last file wins *)
 Lemma C17_order_needs_agreement_lemma :
   exists defaults f g,
-    NoDup (keys defaults) /\ same_name [f; g] /\
+    NoDup (keys defaults) /\
     ~ domain_equiv (combine_domains defaults [f; g]) (combine_domains defaults [g; f]).
 Proof.
   exists [("object", "")],
@@ -212,11 +195,17 @@ Proof.
        d_funcs := []; d_acts := [] |},
     {| d_name := Some "d"; d_reqs := []; d_types := []; d_consts := []; d_preds := [("p", "(p ?x - b)")];
        d_funcs := []; d_acts := [] |}.
-  split; [repeat constructor; intros []|]. split.
-  - intros f g [H|[H|[]]] [H'|[H'|[]]]; subst; reflexivity.
-  - intros (_ & _ & _ & _ & (_ & _ & H) & _). cbn in H.
-    destruct (H "p" "(p ?x - b)") as [H1 _]. destruct H1 as [H1|[]]; [now left|]. discriminate.
+  split; [repeat constructor; intros []|].
+  intros (_ & _ & (_ & _ & H) & _). cbn in H.
+  destruct (H "p" "(p ?x - b)") as [H1 _]. destruct H1 as [H1|[]]; [now left|]. discriminate.
 Qed.
+
+(* name and requirements are outside the union: they are those of the file found last, so they follow
+   the discovery order even when the files agree on every shared name *)
+Lemma C17_name_reqs_last_lemma : forall defaults files,
+  d_name (combine_domains defaults files) = last (map d_name files) None /\
+  d_reqs (combine_domains defaults files) = last (map d_reqs files) [].
+Proof. intros. split; [apply cd_name|apply cd_reqs]. Qed.
 
 (* ---------------------------------------------------------------- non-vacuity *)
 Definition ex_defaults : alist := [("object", "")].
@@ -247,8 +236,11 @@ Qed.
 Lemma ex_agree : sections_agree ex_defaults [ex_a; ex_b].
 Proof. repeat split; apply agree_of_b; vm_compute; reflexivity. Qed.
 
-Lemma ex_same_name : same_name [ex_a; ex_b].
-Proof. intros f g [H|[H|[]]] [H'|[H'|[]]]; subst; reflexivity. Qed.
+Lemma C17_reqs_follow_order_lemma :
+  sections_agree ex_defaults [ex_a; ex_b] /\
+  d_reqs (combine_domains ex_defaults [ex_a; ex_b]) = [":typing"] /\
+  d_reqs (combine_domains ex_defaults [ex_b; ex_a]) = [":typing"; ":numeric-fluents"].
+Proof. split; [exact ex_agree|]. split; reflexivity. Qed.
 
 Lemma ex_nodup : NoDup (keys ex_defaults).
 Proof. repeat constructor. intros []. Qed.
